@@ -35,7 +35,7 @@ func init() {
 			for _, name := range []string{"K_", "MAX_", "A_B_", "K9", "K__", "K_1", "X"} {
 				for _, in := range []string{"a", "[a,b]", "{a:b}"} {
 					for i, m := range muts {
-						if i%3 == 0 || strings.HasPrefix(m, "K = b") || strings.HasPrefix(m, "K++") || strings.HasPrefix(m, "for K") {
+						if tier == "thorough" || i%3 == 0 || strings.HasPrefix(m, "K = b") || strings.HasPrefix(m, "K++") || strings.HasPrefix(m, "for K") {
 							jobs = append(jobs, Job{Prop: "C19", Pkg: "eval", Func: "VerifConstant", Args: []string{in, m, "reg", name}, MaxDec: 600})
 						}
 					}
